@@ -95,6 +95,10 @@ M2 = [
   [('VerilogParser', 'populate_new_cable', 'method')], 'lower-index-is-the-smaller-bound', 'vparser'),
  ('compare-direction-tolerant', 'spydrnet/compare/compare_netlists.py', '        assert port_orig.direction == port_composer.direction, (', '        assert port_orig.direction == port_composer.direction or True, (',
   [('Comparer', 'compare_ports', 'method')], 'directions-equal', 'compare'),
+ ('href-eq-ignores-length', 'spydrnet/util/hierarchical_reference.py', '        if this is None and that is None:\n            return True\n        return False', '        return True',
+  [('HRef', '__eq__', 'method')], 'equal-iff-a-reference-to-the-same-path', 'href'),
+ ('hwires-outer-wrong-level', 'spydrnet/util/get_hwires.py', '                hcable = HRef.from_parent_and_item(hinst.parent, cable)', '                hcable = HRef.from_parent_and_item(hinst, cable)',
+  [('get_hwires', '_get_outer_hwire_from_hpin', 'static')], 'the-wire-attached-outside-the-pin', 'hwires'),
  ('loop-guard-undeclared-store', 'spydrnet/ir/cable.py', '        for _ in range(wire_count):\n            self.create_wire()', '        for _ in range(wire_count):\n            self.create_wire()\n            self._is_scalar = False',
   [('Cable', 'create_wires', 'method')], 'DEGRADED', 'ir'),
  ('benign-ns-local-rename', 'spydrnet/plugins/namespace_manager/__init__.py', 'parent_namespace', 'policy_of_parent', [('NamespaceManager', 'add', 'method')], None, 'ns'),
